@@ -13,15 +13,21 @@ Inductive fin :=
 | Fin (ini hs : option space) (ap : space)
       (largestObs lorTime ignoreBelow mad : Z) (queued : bool) (cnt alarm lowest1rtt : Z).
 
+(** what the connection did with one packet: frames handled, an error was returned,
+    a packet_dropped(duplicate) event was recorded (only observable with a tracer) *)
+Inductive gobs := GObs (handled err dupEvent : bool).
+
 Inductive case :=
 | HistCase (ops : list (hop * hres)) (final : list interval) (db : Z) (back : list interval)
 | HandlerCase (ops : list (op * res)) (final : fin)
-| ValidCase (l : list interval) (valid : bool) (acks : list (Z * bool)).
+| ValidCase (l : list interval) (valid : bool) (acks : list (Z * bool))
+| GlueCase (server tracer : bool) (pkts : list (pkt * gobs)) (dropped : bool) (final : fin).
 
 Inductive obs :=
 | HistObs (rs : list hres) (final : list interval) (db : Z) (back : list interval)
 | HandlerObs (rs : list res) (final : fin)
-| ValidObs (valid : bool) (acks : list (option bool)).
+| ValidObs (valid : bool) (acks : list (option bool))
+| GlueObs (outs : list gout) (dropped : bool) (final : fin).
 
 Definition space_of (t : tracker) : space :=
   Sp (ranges (tHist t)) (deletedBelow (tHist t)) (tECT0 t) (tECT1 t) (tECNCE t) (tHasNewAck t) (tLastAck t).
@@ -38,6 +44,8 @@ Definition model_obs (c : case) : obs :=
     let (h, rs) := hrun newHist (map fst ops) in HistObs rs (ranges h) (deletedBelow h) (backward h)
   | HandlerCase ops _ =>
     let (h, rs) := run newHandler (map fst ops) in HandlerObs rs (fin_of h)
+  | GlueCase server _ pkts _ _ =>
+    let (g, os) := conn_run (mkG newHandler server false) (map fst pkts) in GlueObs os (gInitDropped g) (fin_of (gH g))
   | ValidCase l _ acks => ValidObs (validateAckRanges l) (map (fun x => acksPacket l (fst x)) acks)
   end.
 
@@ -92,6 +100,24 @@ Definition fin_eqb (a b : fin) : bool :=
     (ib =? ib') && (mad =? mad') && Bool.eqb q q' && (c =? c') && (al =? al') && (low =? low')
   end.
 
+Fixpoint list_all2 {A B} (f : A -> B -> bool) (a : list A) (b : list B) : bool :=
+  match a, b with
+  | [], [] => true
+  | x :: a', y :: b' => f x y && list_all2 f a' b'
+  | _, _ => false
+  end.
+
+Definition gobs_ok (tracer : bool) (o : gout) (b : gobs) : bool :=
+  match b with
+  | GObs handled err dupEvent =>
+    match o with
+    | GProcessed r => handled && Bool.eqb err (negb (res_eqb r ROk)) && negb dupEvent
+    | GDropDup => negb handled && negb err && (negb tracer || dupEvent)
+    | GDrop0RTT => negb handled && negb err && negb dupEvent
+    | GPanic => false
+    end
+  end.
+
 Definition ends_in_panic (rs : list res) : bool :=
   match rev rs with RPanic :: _ => true | _ => false end.
 
@@ -103,6 +129,8 @@ Definition check_case (c : case) : bool :=
     list_eqb hres_eqb rs (map snd ops) && ivs_eqb f final && (d =? db) && ivs_eqb b back
   | HandlerCase ops final, HandlerObs rs f =>
     list_eqb res_eqb rs (map snd ops) && (ends_in_panic rs || fin_eqb f final)
+  | GlueCase _ tracer pkts dropped final, GlueObs os d f =>
+    list_all2 (gobs_ok tracer) os (map snd pkts) && Bool.eqb d dropped && fin_eqb f final
   | ValidCase _ v acks, ValidObs v' acks' =>
     Bool.eqb v v' && list_eqb (opt_eqb Bool.eqb) acks' (map (fun x => Some (snd x)) acks)
   | _, _ => false
